@@ -259,7 +259,7 @@ pub fn judge_anchor_text(case: &Case, out_plain: &str) -> Vec<Fail> {
     let mut fails = vec![];
     let body = body_after_flags(out_plain);
     let has_caret = body.starts_with('^');
-    let trailing_backslashes = body[..body.len().saturating_sub(1)].chars().rev().take_while(|c| *c == '\\').count();
+    let trailing_backslashes = body.chars().rev().skip(1).take_while(|c| *c == '\\').count();
     let has_dollar = body.ends_with('$') && trailing_backslashes % 2 == 0;
     if has_caret == case.cfg.has(BIT_NO_START) {
         fails.push(Fail::new(Kind::Syntax, format!("start anchor {} but output is {:?}", if has_caret { "disabled" } else { "requested" }, out_plain), None));
